@@ -449,6 +449,15 @@ func (r *Runner) checkAST(c *caseCtx, v spec.VariantStatus, o *obs.Obs, ref *ri.
 			}
 			// ---- C05 tree and printers
 			r.checkTree(c, o, ref, w, vkey, sample)
+			// ---- the accessors are read-only: tokens and actions are the same after the tree was built
+			if o.Reread && o.ASTPanic == "" {
+				if tokStr(o.ToksAfter) != tokStr(o.Toks) {
+					r.mismatch(c, "C03", "tokens-after-tree", tokStr(o.Toks), "after AST()/printers: "+tokStr(o.ToksAfter), "")
+				}
+				if o.ExecPanic == "" && join(o.TAfter) != join(o.T) {
+					r.mismatch(c, "C04", "trace-after-tree", join(o.T), "Execute() after AST()/printers: "+join(o.TAfter), "")
+				}
+			}
 		}
 	}
 	if !o.OK && !ref.OK {
